@@ -8,7 +8,10 @@ from vlib.semgen import *
 HARNESS = "sem"
 CLAIM = dict(
     text=("Theorems (coq/props/C18.v): physical line starts (CR, LF, CRLF, LFCR) are strictly increasing and FindLineIdx returns the line "
-          "containing the cursor, for every source and cursor; every statement starts with the running frame's line set to its own line and "
+          "containing the cursor, for every source and cursor; the LEXER's line table is that table — for every source the front-end model "
+          "accepts the recorded line starts equal phys_starts, and in every state the lexer reaches they are the physical line starts up to "
+          "the cursor (texts and comments spanning lines, all four line-end forms, backtick escapes: C18_lexer_lines_are_physical_lines, "
+          "C18_lexer_lines_up_to_cursor); every statement starts with the running frame's line set to its own line and "
           "callers keep the line of their pending call; an expression that fails leaves the frame that evaluated it untouched — its line included "
           "— under the frames of the calls in progress, so that an expression statement, 输出, a declaration and a 每当 condition (first "
           "and every later pass) are reported at their own line; for every fuel, state and expression a returned call leaves no frame, a failed call "
@@ -22,7 +25,8 @@ CLAIM = dict(
           "assignment, expression statement, 如果 / 每当 condition on the first and on later passes, 遍历 target, arguments, 输出; nested in "
           "blocks, methods, object methods and constructors): reported lines and quoted texts must be those of the faulting statement and "
           "of the calls leading to it — the expectation comes from the construction, not from the model."),
-    note=semprop.TB + ("the lexer's line bookkeeping inside texts and comments is tied by the per-run comparison with phys_starts, not proved; "
+    note=semprop.TB + ("the lexer model (Lexer.v / StringLit.v) is hand-written and tied to the Go lexer by the per-run comparisons of C03/C05/C13 and, here, of the "
+                       "Go lexer's recorded line starts with phys_starts; 
                        "one module only for the chain (module names of imported methods are C15's subject); East-Asian display widths are "
                        "checked for ASCII, CJK ideographs and full-width punctuation."),
     technique="Coq proof (line-start specification, FindLineIdx, frame/line bookkeeping invariants) + fault-planting correspondence",
